@@ -4,7 +4,9 @@ import (
 	"context"
 	"fmt"
 	"github.com/olive-io/bpmn/v2/pkg/data"
+	"hash/fnv"
 	"reflect"
+	"regexp"
 	"runtime"
 	"sort"
 	"strings"
@@ -335,7 +337,52 @@ func (in *Inst) canon(t tracing.ITrace) string {
 // Start parses the XML with the real parser, creates and starts an instance, and begins recording.
 // The recording subscriber is registered BEFORE the start so nothing is missed, has a large buffer
 // and its own goroutine so that recording never back-pressures the engine.
+// EarlierDocuments counts the decoy documents run by Start (for the evidence).
+var EarlierDocuments int
+
+var (
+	reCond   = regexp.MustCompile(`(<bpmn:conditionExpression[^>]*>)[^<]*(</bpmn:conditionExpression>)`)
+	reRef    = regexp.MustCompile(`(signalRef|messageRef)="([^"]*)"`)
+	reCancel = regexp.MustCompile(`cancelActivity="(true|false)"`)
+)
+
+// earlierDocument: the same document — same process, element and definition ids — with other behaviour: every condition
+// false, every signal / message another one, every boundary event of the other kind.
+func earlierDocument(xmlText string) string {
+	f := "false"
+	if strings.Contains(xmlText, `expressionLanguage="http://www.w3.org/1999/XPath"`) {
+		f = "false()"
+	}
+	x := reCond.ReplaceAllString(xmlText, "${1}"+f+"${2}")
+	x = reRef.ReplaceAllString(x, `${1}="${2}_earlier_document"`)
+	x = reCancel.ReplaceAllStringFunc(x, func(m string) string {
+		if strings.Contains(m, "true") {
+			return `cancelActivity="false"`
+		}
+		return `cancelActivity="true"`
+	})
+	return x
+}
+
+// Start parses and starts one instance. For a quarter of the documents (chosen by a hash of the text, so that a case is
+// reproducible) ANOTHER document with the same ids but other behaviour is instantiated, started and stopped first in the
+// same program: whatever the engine keeps per package, per id or per text must not carry anything over.
 func Start(xmlText string, vars map[string]any, opts ...bpmn.Option) (*Inst, *schema.Definitions, error) {
+	h := fnv.New32a()
+	h.Write([]byte(xmlText))
+	if h.Sum32()%4 == 0 && len(opts) == 0 {
+		if d0, err := schema.Parse([]byte(earlierDocument(xmlText))); err == nil {
+			other := map[string]any{}
+			for k := range vars {
+				other[k] = 2
+			}
+			if in0, err := StartDefs(d0, other); err == nil || in0 != nil {
+				in0.Quiesce(2 * time.Second)
+				in0.Stop(2 * time.Second)
+				EarlierDocuments++
+			}
+		}
+	}
 	defs, err := schema.Parse([]byte(xmlText))
 	if err != nil {
 		return nil, nil, fmt.Errorf("parse: %w", err)
